@@ -209,8 +209,26 @@ func (c *Client) cmd(expectCode int, format string, args ...interface{}) (int, s
 	c.debugLog(log.DirServerToClient, "%d %s", logMsg...)
 
 	c.Text.EndResponse(id)
+	c.dropIfReplyMissed(err)
 	c.mutex.Unlock()
 	return code, msg, err
+}
+
+// dropIfReplyMissed closes the connection if err tells that the reply to a command has not been
+// read because the read ran into the connection deadline. The server may still send that reply
+// later. It would then be taken for the reply to the next command and every further command of
+// the session would be out of step with its reply. It must be called with the mutex held.
+func (c *Client) dropIfReplyMissed(err error) {
+	var netErr net.Error
+	if err != nil && errors.As(err, &netErr) && netErr.Timeout() {
+		// The peer does not respond: a TLS connection is closed without waiting for the
+		// close_notify alert to be written
+		if tlsConn, ok := c.conn.(*tls.Conn); ok {
+			_ = tlsConn.NetConn().Close()
+		}
+		_ = c.Text.Close()
+		c.isConnected = false
+	}
 }
 
 // helo sends the HELO greeting to the server. It should be used only when the
@@ -406,6 +424,7 @@ func (d *dataCloser) Close() error {
 	d.c.mutex.Lock()
 	_ = d.WriteCloser.Close()
 	_, _, err := d.c.Text.ReadResponse(250)
+	d.c.dropIfReplyMissed(err)
 	d.c.mutex.Unlock()
 	return err
 }
